@@ -47,6 +47,7 @@ func (e *Engine) rootEnv(st *State, results []Val) *SpecEnv {
 	if len(st.frames) > 0 {
 		env.fr = st.frames[0]
 	}
+	env.free = e.rootFree
 	return env
 }
 
@@ -138,6 +139,12 @@ func (e *Engine) lookupIdent(cur *State, name string, env *SpecEnv) (Val, bool) 
 			}
 		}
 		return v, true
+	}
+	// captured variable of a closure under contract: the current content of the captured cell
+	if fv, ok := env.free[name]; ok && !dollar {
+		if pt, ok := fv.Ty.Underlying().(*types.Pointer); ok {
+			return e.load(cur, fv, pt.Elem()), true
+		}
 	}
 	// named local of the root frame: the live cell with that name (latest allocation wins)
 	if env.fr != nil && (dollar || !env.localsOnlyDollar) {
@@ -673,6 +680,17 @@ func (e *Engine) specCall(cur, old *State, n SCall, env *SpecEnv) Val {
 			}
 			e.specErr("deref() of a non-pointer")
 			return Val{K: KOpaque, T: e.fresh("specerr", "Int")}
+		case "fst", "snd":
+			v := arg(0)
+			k := 0
+			if id.Name == "snd" {
+				k = 1
+			}
+			if v.K == KTuple && k < len(v.F) {
+				return v.F[k]
+			}
+			e.specErr("%s() expects a tuple", id.Name)
+			return Val{K: KOpaque, T: e.fresh("specerr", "Int")}
 		case "base": // backing array of a slice
 			v := arg(0)
 			if v.K == KSlice {
@@ -843,6 +861,15 @@ func (e *Engine) specCall(cur, old *State, n SCall, env *SpecEnv) Val {
 					args[i] = e.coerceTo(args[i], p.Type())
 				}
 			}
+			if con := e.P.contractFor(v.Fn); con != nil && con.has("stable") {
+				e.stableMode = true
+				if con := e.P.contractFor(v.Fn); con != nil && con.Extern {
+					e.usedExterns[v.Fn.String()+" (ASSUMED contract, not proved: "+contractSummary(con)+")"] = true
+				}
+				r := e.pureResult(cur, "stable."+v.Fn.String(), args, e.resultTypeOfSig(v.Fn.Signature), true)
+				e.stableMode = false
+				return r
+			}
 			if r, ok := e.pureSummary(cur, v.Fn, args, "true"); ok {
 				return r
 			}
@@ -998,11 +1025,57 @@ func (e *Engine) finish(st *State, rs []Val, root *Frame) {
 	for _, c := range e.con.get("assigns") {
 		e.checkFrame(st, c, env)
 	}
+	if keep := e.con.preserved(); len(keep) > 0 && !e.con.has("by-induction") {
+		// `preserves KEY...` on a function with a body: each named array is at return what it was at entry
+		pc := e.con.get("preserves")[0]
+		for _, key := range sortedKeys(st.heap) {
+			hit := false
+			for _, k := range keep {
+				if strings.Contains(key, k) {
+					hit = true
+				}
+			}
+			if !hit {
+				continue
+			}
+			ent, ok := e.entry.heap[key]
+			if !ok {
+				ent = e.heapGet(e.entry, key, e.keySort[key])
+			}
+			if st.heap[key] == ent {
+				continue
+			}
+			e.oblige(st, fmt.Sprintf("%s#preserves:%s", e.fnShort(), key), "K3", "array unchanged at return: "+pc.Text, eq(st.heap[key], ent), "return", pc.Props)
+		}
+		if st.epoch != e.entry.epoch {
+			e.oblige(st, fmt.Sprintf("%s#preserves:<havoc>", e.fnShort()), "K3", "a callee without contract or frame ran: nothing is known about what it wrote", "false", "return", pc.Props)
+		}
+		for _, ph := range st.pending {
+			for _, sub := range ph.eff.flat() {
+				for _, k := range keep {
+					if sub.mayHitFragment(k) {
+						e.oblige(st, fmt.Sprintf("%s#preserves:%s<callee>", e.fnShort(), k), "K3", "a callee may write arrays matching "+k, "false", "return", pc.Props)
+					}
+				}
+			}
+		}
+	}
+	if e.con.has("pure") && !e.con.has("assigns") {
+		// `pure` on a function with a body is a claim to be proved: it assigns nothing
+		pc := e.con.get("pure")[0]
+		e.checkFrame(st, &Clause{Kind: "assigns", Text: "nothing (pure)", Label: "pure", Props: pc.Props}, env)
+	}
 }
 
 // checkFrame: every heap location that existed at entry and is not named by `assigns` has its
 // entry value at exit. One obligation per touched array (skolemised index).
 func (e *Engine) checkFrame(st *State, c *Clause, env *SpecEnv) {
+	e.checkFrameRel(st, e.entry, c, env, "assigns", "return")
+}
+
+// checkFrameRel: every heap location that existed in ref and is not named by the frame clause has
+// its ref value in st. Locations are evaluated in ref.
+func (e *Engine) checkFrameRel(st, ref *State, c *Clause, env *SpecEnv, kind, where string) {
 	type allowed struct {
 		prefix string // key prefix
 		idx    string // index term ("" = any)
@@ -1027,7 +1100,25 @@ func (e *Engine) checkFrame(st *State, c *Clause, env *SpecEnv) {
 			}
 			continue
 		case SSel:
-			base := e.evalSpec(e.entry, e.entry, x.X, env)
+			if pt, addr, ok := e.structAddr(ref, ref, x.X, env); ok {
+				if s, ok := isStruct(pt); ok {
+					done := false
+					for i := 0; i < s.NumFields(); i++ {
+						if s.Field(i).Name() == x.Name {
+							done = true
+							if _, nested := isStruct(s.Field(i).Type()); nested {
+								al = append(al, allowed{prefix: "F:", idx: addInt(addr, e.offsetOf(s, i)), size: sizeOf(s.Field(i).Type()), cond: "true"})
+							} else {
+								al = append(al, allowed{prefix: fmt.Sprintf("F:%s.%s:", typeName(pt), x.Name), idx: addr, size: 1, cond: "true"})
+							}
+						}
+					}
+					if done {
+						continue
+					}
+				}
+			}
+			base := e.evalSpec(ref, ref, x.X, env)
 			if x.Name == "all" || x.Name == "_" {
 				switch base.K {
 				case KPtr:
@@ -1058,7 +1149,7 @@ func (e *Engine) checkFrame(st *State, c *Clause, env *SpecEnv) {
 				}
 			}
 		case SIndex:
-			base := e.evalSpec(e.entry, e.entry, x.X, env)
+			base := e.evalSpec(ref, ref, x.X, env)
 			switch base.K {
 			case KSlice:
 				al = append(al, allowed{prefix: "E:", idx: base.T, cond: "true"})
@@ -1066,23 +1157,29 @@ func (e *Engine) checkFrame(st *State, c *Clause, env *SpecEnv) {
 				a := allowed{prefix: "M", idx: base.T, cond: "true"}
 				if id, ok := x.I.(SIdent); !(ok && (id.Name == "_" || id.Name == "all")) {
 					mt := base.Ty.Underlying().(*types.Map)
-					a.idx2 = e.mapKeyTerm(mt, e.coerceTo(e.evalSpec(e.entry, e.entry, x.I, env), mt.Key()))
+					a.idx2 = e.mapKeyTerm(mt, e.coerceTo(e.evalSpec(ref, ref, x.I, env), mt.Key()))
 				}
 				al = append(al, a)
 			}
 		case SCall:
 			if id, ok := x.Fn.(SIdent); ok && id.Name == "deref" {
-				base := e.evalSpec(e.entry, e.entry, x.Args[0], env)
+				base := e.evalSpec(ref, ref, x.Args[0], env)
 				al = append(al, allowed{prefix: "F:", idx: base.T, size: 1, cond: "true"})
 			}
 		}
 	}
-	if st.epoch != 0 {
-		e.oblige(st, fmt.Sprintf("%s#assigns:<havoc>", e.fnShort()), "K3", "a callee without contract or frame ran: nothing is known about what it wrote ("+c.Text+")", "false", "return", c.Props)
+	if st.epoch != ref.epoch {
+		e.oblige(st, fmt.Sprintf("%s#"+kind+":<havoc>", e.fnShort()), "K3", "a callee without contract or frame ran: nothing is known about what it wrote ("+c.Text+")", "false", "return", c.Props)
 	}
+	var pend []pendingHavoc
 	for _, ph := range st.pending {
+		for _, sub := range ph.eff.flat() {
+			pend = append(pend, pendingHavoc{eff: sub, epoch: ph.epoch})
+		}
+	}
+	for _, ph := range pend {
 		if ph.eff.All && !(foreign != "" && ph.eff.Except == foreign) {
-			e.oblige(st, fmt.Sprintf("%s#assigns:<foreign havoc>", e.fnShort()), "K3", "a callee in another package without contract ran ("+c.Text+")", "false", "return", c.Props)
+			e.oblige(st, fmt.Sprintf("%s#"+kind+":<foreign havoc>", e.fnShort()), "K3", "a callee in another package without contract ran ("+c.Text+")", "false", "return", c.Props)
 		}
 		for _, k := range sortedKeys(ph.eff.Keys) {
 			touched := false
@@ -1100,16 +1197,16 @@ func (e *Engine) checkFrame(st *State, c *Clause, env *SpecEnv) {
 					}
 				}
 				if !okAll {
-					e.oblige(st, fmt.Sprintf("%s#assigns:%s<callee>", e.fnShort(), k), "K3", "a callee may write "+k+" ("+c.Text+")", "false", "return", c.Props)
+					e.oblige(st, fmt.Sprintf("%s#"+kind+":%s<callee>", e.fnShort(), k), "K3", "a callee may write "+k+" ("+c.Text+")", "false", "return", c.Props)
 				}
 			}
 		}
 	}
 	for _, key := range sortedKeys(st.heap) {
 		exit := st.heap[key]
-		ent, ok := e.entry.heap[key]
+		ent, ok := ref.heap[key]
 		if !ok {
-			ent = e.heapGet(e.entry, key, e.keySort[key])
+			ent = e.heapGet(ref, key, e.keySort[key])
 		}
 		if exit == ent {
 			continue
@@ -1121,7 +1218,7 @@ func (e *Engine) checkFrame(st *State, c *Clause, env *SpecEnv) {
 			continue
 		}
 		if strings.HasPrefix(key, "G:") {
-			e.oblige(st, fmt.Sprintf("%s#assigns:%s", e.fnShort(), key), "K3", "global unchanged: "+c.Text, eq(exit, ent), "return", c.Props)
+			e.oblige(st, fmt.Sprintf("%s#"+kind+":%s", e.fnShort(), key), "K3", "global unchanged: "+c.Text, eq(exit, ent), "return", c.Props)
 			continue
 		}
 		k := e.fresh("fr.k", "Int")
@@ -1151,9 +1248,9 @@ func (e *Engine) checkFrame(st *State, c *Clause, env *SpecEnv) {
 			}
 		}
 		// locations that did not exist at entry are exempt
-		existed := fmt.Sprintf("(and (> %s 0) (< %s %s))", k, k, e.entry.A.term())
+		existed := fmt.Sprintf("(and (> %s 0) (< %s %s))", k, k, ref.A.term())
 		goal := implies(and(existed, differs), or(oks...))
-		e.oblige(st, fmt.Sprintf("%s#assigns:%s", e.fnShort(), key), "K3", "only `"+c.Text+"` may change ("+key+")", goal, "return", c.Props)
+		e.oblige(st, fmt.Sprintf("%s#"+kind+":%s", e.fnShort(), key), "K3", "only `"+c.Text+"` may change ("+key+")", goal, where, c.Props)
 	}
 }
 
@@ -1174,4 +1271,38 @@ func innerIndexSort(s string) string {
 		}
 	}
 	return strings.SplitN(s, " ", 2)[0]
+}
+
+
+// structAddr resolves an expression denoting a struct *location* (a pointer to a struct, or a
+// by-value struct field reached from one) to (struct type, address term).
+func (e *Engine) structAddr(cur, old *State, x SExpr, env *SpecEnv) (types.Type, string, bool) {
+	if sel, ok := x.(SSel); ok {
+		if pt, addr, ok := e.structAddr(cur, old, sel.X, env); ok {
+			if s, ok := isStruct(pt); ok {
+				for i := 0; i < s.NumFields(); i++ {
+					if s.Field(i).Name() == sel.Name {
+						ft := s.Field(i).Type()
+						if _, nested := isStruct(ft); nested {
+							return ft, addInt(addr, e.offsetOf(s, i)), true
+						}
+						if p, isP := ft.Underlying().(*types.Pointer); isP {
+							v := e.loadField(cur, pt, addr, i)
+							return p.Elem(), v.T, true
+						}
+						return nil, "", false
+					}
+				}
+			}
+		}
+	}
+	v := e.evalSpec(cur, old, x, env)
+	if v.K == KPtr && v.Ty != nil {
+		if pt := e.pointee(v.Ty); pt != nil {
+			if _, ok := isStruct(pt); ok {
+				return pt, v.T, true
+			}
+		}
+	}
+	return nil, "", false
 }
